@@ -168,7 +168,8 @@ def partial_body(data: bytes, skip_interim=True):
             continue
         break
     hl = head.lower()
-    if b"\r\ntransfer-encoding: chunked" in hl:
+    te = [ln.split(b":", 1)[1].strip() for ln in hl.split(b"\r\n")[1:] if ln.startswith(b"transfer-encoding:")]
+    if te and te[-1].split(b",")[-1].strip() == b"chunked":
         body, pos = b"", 0
         while True:
             j = rest.find(b"\r\n", pos)
@@ -203,7 +204,8 @@ def feats_of(case, ref):
         phase = "buffered"
     return {"dir": case["dir"], "proto": case["proto"], "framing": case["framing"], "L": case["L"], "S": case["S"],
             "store": bool(case["store"]), "addon": case["addon"], "phase": phase, "emits_empty_piece": emits_empty,
-            "expect100": bool(case.get("expect")), "client_window": "small" if case.get("window") else "default"}
+            "expect100": bool(case.get("expect")), "client_window": "small" if case.get("window") else "default",
+            "te_spelling": case.get("te", "chunked") if case["framing"] == "chunked" else "-"}
 
 
 def make_policy(case):
@@ -257,6 +259,14 @@ def run_case(case, t: Tally, verbose=False):
     judge(case, ref, feats, res, t, verbose)
 
 
+TE_SPELLINGS = {"chunked": b"chunked", "Chunked": b"Chunked", "CHUNKED": b"CHUNKED", "gzip,chunked": b"gzip, chunked", "ows": b"chunked "}
+
+
+def _te(case):
+    """the Transfer-Encoding field as the sender spells it (coding names are case-insensitive, RFC 9112 7)"""
+    return b"Transfer-Encoding: " + TE_SPELLINGS[case.get("te", "chunked")] + b"\r\n"
+
+
 def _h1_frames(case):
     """the byte segments that carry the body parts, and the terminator"""
     chunks = []
@@ -294,7 +304,7 @@ def drive_h1(case, ref):
         w.start()
         segs, term = _h1_frames(case)
         if case["dir"] == "req":
-            fr = {"cl": b"Content-Length: %d\r\n" % n, "chunked": b"Transfer-Encoding: chunked\r\n"}[case["framing"]]
+            fr = {"cl": b"Content-Length: %d\r\n" % n, "chunked": _te(case)}[case["framing"]]
             head = b"POST http://example.com/u HTTP/1.1\r\nHost: example.com\r\n" + fr + (b"Expect: 100-continue\r\n" if case.get("expect") else b"") + b"\r\n"
 
             def peer():
@@ -319,7 +329,7 @@ def drive_h1(case, ref):
         else:
             _csend(w, b"GET http://example.com/d HTTP/1.1\r\nHost: example.com\r\n\r\n")
             e = w.servers[0]
-            fr = {"cl": b"Content-Length: %d\r\n" % n, "chunked": b"Transfer-Encoding: chunked\r\n", "eof": b""}[case["framing"]]
+            fr = {"cl": b"Content-Length: %d\r\n" % n, "chunked": _te(case), "eof": b""}[case["framing"]]
             head = b"HTTP/1.1 200 OK\r\n" + fr + b"\r\n"
 
             def peer():
@@ -395,7 +405,7 @@ def drive_h2(case, ref):
             sid = hw.request([(b":method", b"GET"), (b":scheme", b"http"), (b":authority", b"example.com"), (b":path", b"/d")], end=True)
             _connect_all(w)
             e = w.servers[0]
-            fr = {"cl": b"Content-Length: %d\r\n" % n, "chunked": b"Transfer-Encoding: chunked\r\n", "eof": b""}[case["framing"]]
+            fr = {"cl": b"Content-Length: %d\r\n" % n, "chunked": _te(case), "eof": b""}[case["framing"]]
             segs, term = _h1_frames(case)
 
             def peer():
@@ -638,6 +648,26 @@ def cases(tier):
                                         if proto == "h1" and d == "req" and addon in ("none", "true") and len(parts) <= 2 and variants:
                                             out.append(dict(base, expect=True))
     out += window_cases(tier)
+    out += spelling_cases(tier)
+    return out
+
+
+def spelling_cases(tier):
+    """chunked bodies whose Transfer-Encoding field is spelled differently (case, a preceding coding, trailing OWS):
+    whatever the spelling, what the peer's HTTP/1 reader de-frames must be the body"""
+    out = []
+    full = tier != "quick"
+    for d in ("req", "resp"):
+        for proto in (("h1", "h2") if (full and d == "resp") else ("h1",)):
+            for S in ("-", "3"):
+                for store in ((False, True) if full else (False,)):
+                    for addon in (("none", "true", "upper", "gen", "buffer") if full else ("none", "true", "gen")):
+                        if addon == "none" and S == "-" and not full:
+                            continue
+                        for n in ((0, 4, 9) if full else (0, 4)):
+                            for parts in compositions(n, 3 if (full and n <= 4) else 2):
+                                for te in ("Chunked", "CHUNKED", "gzip,chunked", "ows"):
+                                    out.append({"dir": d, "proto": proto, "framing": "chunked", "te": te, "L": "-", "S": S, "store": store, "addon": addon, "parts": parts})
     return out
 
 
@@ -699,6 +729,7 @@ def run(ctx):
         "sizes": "0, 1, L-1, L, L+1, 2L, S, S+1 (1k: 1023, 1024, 1025, 2048)", "max_parts": ctx.pick(2, 3),
         "chunking": "every composition into <= max_parts parts for n <= 6; for 7 <= n <= 12 every composition into <= 2 parts plus the 3-part ones with a cut within 1 of a threshold; 8 fixed splits for n >= 1023; h1 additionally all parts in one TCP segment; Expect: 100-continue variant",
         "h2_client_flow_control": "responses streamed to an HTTP/2 client whose INITIAL_WINDOW_SIZE is [2..5] and which re-opens the window in steps of [1..5] bytes after the whole response reached the proxy (sizes 6/9, every composition into 2-3 parts)",
+        "transfer_encoding_spellings": "chunked bodies in both directions additionally with the field spelled " + ", ".join(repr(v.decode()) for v in TE_SPELLINGS.values()),
         "quick_tier": "sub-product (see _quick_keeps): every value of every dimension occurs; thorough is the full product",
         "cases": len(cs),
     }
